@@ -139,6 +139,19 @@ theorem unique_step {s s' : Sys} {c : Call} {oids : List V} {r : Reply}
     (e : Sys.step sch s c oids = .ok (s', r)) : SysInv sch s' ∧ UniqueOkCat sch s'.catalog :=
   let g := SysGood.step (uq := true) ⟨hi, fun _ => hu⟩ e; ⟨g.1, g.2 rfl⟩
 
+/-- the same for one call on any transaction (plain or inside a session) -/
+theorem unique_runCall {t t' : Txn} {nu nu' : Nu} {c : Call} {r : Reply}
+    (hi : Inv sch t.catalog nu.nextId) (hu : UniqueOkCat sch t.catalog)
+    (e : runCall sch t nu c = .ok (t', nu', r)) : UniqueOkCat sch t'.catalog :=
+  (Good.runCall (uq := true) ⟨hi, fun _ => hu⟩ e).1.2 rfl
+
+/-- session level: uniqueness (among well-formed documents) of the committed catalog and of every
+    open session transaction is preserved by every session-level step -/
+theorem unique_sstep {s : SSys} (g : SGood sch true s) (c : SCall) : SGood sch true (s.step sch c).1 :=
+  g.step c
+
+theorem unique_sinit : SGood sch true SSys.init := SGood.init
+
 /-- after ANY history of driver calls from the empty database: no unique index has two distinct
     well-formed documents with a common key -/
 theorem uniqueOk_run (calls : List (Call × List V)) :
